@@ -170,7 +170,10 @@ type BitDFS struct {
 	MaxDev   int
 	Overrun  bool  // also explore "the stream ends here" at every position
 	MaxExecs int64 // 0 = unlimited
-	execs    int64
+	// PRNGFaithful: draws wider than 64 bits are always answered with all ones and never varied, as the
+	// PRNG stream does; use it when the explored streams stand for what Check itself can generate.
+	PRNGFaithful bool
+	execs        int64
 }
 
 func clonePrefix(t []Draw, i int, d Draw) []Draw {
@@ -199,7 +202,16 @@ func (e *BitDFS) Explore(c *Ctx, run func(src *Source, devs int)) {
 			return
 		}
 		e.execs++
-		src := &Source{prefix: prefix, depth: e.Depth, base: e.Base}
+		base := e.Base
+		if e.PRNGFaithful {
+			base = func(n int) uint64 {
+				if n > 64 {
+					return ^uint64(0)
+				}
+				return e.Base(n)
+			}
+		}
+		src := &Source{prefix: prefix, depth: e.Depth, base: base}
 		ExecBegin(fmt.Sprintf("bitdfs prefix=%v", prefix))
 		run(src, devs)
 		ExecEnd()
@@ -222,6 +234,9 @@ func (e *BitDFS) Explore(c *Ctx, run func(src *Source, devs int)) {
 			d := src.Trace[i]
 			if d.Overrun {
 				break
+			}
+			if e.PRNGFaithful && d.N > 64 {
+				continue
 			}
 			for _, a := range e.Alpha(d.N, devs+1) {
 				if a == d.Val {
